@@ -63,7 +63,9 @@ def install():
                 res = orig(self, *a, **k)
                 return res
             except BaseException as e:
-                out = type(e).__name__
+                # the outcome is the documented exception FAMILY (a subclass of RuntimeError is a RuntimeError)
+                out = next((n for n, c in (("RuntimeError", RuntimeError), ("ValueError", ValueError), ("TypeError", TypeError))
+                            if isinstance(e, c)), type(e).__name__)
                 raise
             finally:
                 _depth[0] -= 1
